@@ -8,7 +8,8 @@ Local Open Scope Z_scope.
 
 Theorem C04_src_VeCommandGet : forall c addr v idle, 0 <= addr < 65536 ->
   exists o idle', go_VeCommandGet c addr (mkD v idle) = (o, mkD (snd (ve_command_get c idle addr v)) idle')
-            /\ res_rel o (fst (ve_command_get c idle addr v)).
+            /\ res_rel o (fst (ve_command_get c idle addr v))
+            /\ (o <> DPanic -> o <> DFuel -> idle' = false).
 Proof. exact go_VeCommandGet_spec. Qed.
 Print Assumptions C04_src_VeCommandGet.
 
